@@ -290,3 +290,71 @@ func vh_C02_recursion() {
 	vDiff(env, vProgRecursion(env), "recursion")
 	vReach("recursion")
 }
+
+// vh_C02_truthiness: the truthiness rule (false, nil and integer/char/uint64
+// zero are false; every other value - floats including 0.0, strings
+// including "", arrays, hashes, symbols, functions - is true) as cond, and,
+// or, not, the for-loop test and infix if apply it, for values written as
+// literals and values computed at run time.
+var vC02TruthValues = []struct {
+	src    string
+	truthy bool
+}{
+	{`0`, false}, {`5`, true}, {`(- 9001 9001)`, false}, {`0.0`, true}, {`-0.0`, true}, {`2.5`, true}, {`(- 1.5 1.5)`, true},
+	{`""`, true}, {`"s"`, true}, {`[]`, true}, {`[0]`, true}, {`nil`, false}, {`false`, false}, {`true`, true},
+	{`'a'`, true}, {`0ULL`, false}, {`3ULL`, true}, {`(hash)`, true}, {`(quote sym)`, true}, {`(fn [] 0)`, true}, {`(list)`, false}, {`(list 0)`, true},
+	{`NaN`, true},
+}
+
+var vC02TruthForms = []struct {
+	src      string
+	ifTrue   int64
+	ifFalse  int64
+}{
+	{`(cond V 1 2)`, 1, 2},
+	{`(cond (and V 7) 1 2)`, 1, 2},
+	{`(cond (or V false) 1 2)`, 1, 2},
+	{`(cond (not V) 1 2)`, 2, 1},
+	{`(begin (def n 0) (for [(def i 0) (and (< i 1) V) (set i (+ i 1))] (set n 1)) (cond (== n 1) 1 2))`, 1, 2},
+	{`(begin (defn tf [u] (cond u 1 2)) (tf V))`, 1, 2},
+}
+
+func vh_C02_truthiness() {
+	vFormatOpaque(true)
+	env := vStdEnvs(1)[0]
+	vk := vChoice("value", len(vC02TruthValues))
+	fk := vChoice("form", len(vC02TruthForms)+1)
+	v := vC02TruthValues[vk]
+	var src string
+	var want int64
+	if fk == len(vC02TruthForms) {
+		src = `(def tv ` + v.src + `) { r := 2; if tv { r = 1 }; r }`
+		want = 2
+		if v.truthy {
+			want = 1
+		}
+	} else {
+		f := vC02TruthForms[fk]
+		src = vReplace(f.src, "V", v.src)
+		want = f.ifFalse
+		if v.truthy {
+			want = f.ifTrue
+		}
+	}
+	var res Sexp
+	var err error
+	p := false
+	for _, f := range vT(env, src, vSmallInt("h")) {
+		res, err, p = vEval(env, f)
+		if err != nil || p {
+			break
+		}
+	}
+	vAssert(!p && err == nil, "truthiness-program-evaluates")
+	if p || err != nil {
+		return
+	}
+	r, isI := res.(*SexpInt)
+	vAssert(isI && r.Val == want, "truthiness-rule")
+	vReach("truthiness")
+}
